@@ -6,7 +6,9 @@ package metric
 //   hist <gen> <limit> <tps> <insts> <views> | m j set x | o j set x | k | c r … => <r>@<metric>;<metric> …
 // limit: "-" (unset), x<hex> (these bytes, possibly none) or the text of the environment variable;
 // tps: one of d|c per reader, optionally followed by + (every reader collects into its OWN ResourceMetrics value that
-//   is reused for all its collections) or * (ALL readers collect into ONE reused ResourceMetrics value);
+//   is reused for all its collections) or * (ALL readers collect into ONE reused ResourceMetrics value), and by R
+//   (observable instruments are created WITHOUT callback options — also when creation returns an error — and their
+//   callbacks are registered with Meter.RegisterCallback);
 // insts: comma list <i|f|I|F><kind>[:<scope><name><desc><unit>], kind c,u,h,g (sync) C,U,G (observable); I / F = int64 /
 //   float64 instrument that is created LATER, by the operation "n j"; without the suffix
 //   instrument j is named "i<j>" and created by meter 0 ("c12"); with it (four digits) it is named "i<name>", has
@@ -426,8 +428,14 @@ func TestVerifC12Views(t *testing.T) {
 		}
 		tpsTok := tps
 		reuse := byte(0)
-		if n := len(tps); n > 0 && (tps[n-1] == '+' || tps[n-1] == '*') {
-			reuse, tps = tps[n-1], tps[:n-1]
+		regMode := false // observable callbacks through Meter.RegisterCallback instead of creation options
+		for n := len(tps); n > 0 && strings.IndexByte("+*R", tps[n-1]) >= 0; n = len(tps) {
+			if tps[n-1] == 'R' {
+				regMode = true
+			} else {
+				reuse = tps[n-1]
+			}
+			tps = tps[:n-1]
 		}
 		var readers []*ManualReader
 		var opts []Option
@@ -507,7 +515,45 @@ func TestVerifC12Views(t *testing.T) {
 				}
 				return nil
 			})
+			regI := func(inst metric.Int64Observable, _ error) {
+				async[j] = true
+				_, _ = m.RegisterCallback(func(_ context.Context, o metric.Observer) error {
+					for _, ob := range cur {
+						if ob.j == j {
+							opt, after := obsOpt(ob.set)
+							o.ObserveInt64(inst, ob.v, opt.(metric.ObserveOption))
+							after()
+						}
+					}
+					return nil
+				}, inst)
+			}
+			regF := func(inst metric.Float64Observable, _ error) {
+				async[j] = true
+				_, _ = m.RegisterCallback(func(_ context.Context, o metric.Observer) error {
+					for _, ob := range cur {
+						if ob.j == j {
+							opt, after := obsOpt(ob.set)
+							o.ObserveFloat64(inst, float64(ob.v)/256, opt.(metric.ObserveOption))
+							after()
+						}
+					}
+					return nil
+				}, inst)
+			}
 			switch {
+			case regMode && kind == 'C' && !float:
+				regI(m.Int64ObservableCounter(name, c12Opts[metric.Int64ObservableCounterOption](du)...))
+			case regMode && kind == 'C':
+				regF(m.Float64ObservableCounter(name, c12Opts[metric.Float64ObservableCounterOption](du)...))
+			case regMode && kind == 'U' && !float:
+				regI(m.Int64ObservableUpDownCounter(name, c12Opts[metric.Int64ObservableUpDownCounterOption](du)...))
+			case regMode && kind == 'U':
+				regF(m.Float64ObservableUpDownCounter(name, c12Opts[metric.Float64ObservableUpDownCounterOption](du)...))
+			case regMode && kind == 'G' && !float:
+				regI(m.Int64ObservableGauge(name, c12Opts[metric.Int64ObservableGaugeOption](du)...))
+			case regMode && kind == 'G':
+				regF(m.Float64ObservableGauge(name, c12Opts[metric.Float64ObservableGaugeOption](du)...))
 			case kind == 'c' && !float:
 				c, _ := m.Int64Counter(name, c12Opts[metric.Int64CounterOption](du)...)
 				recs[j] = func(a metric.MeasurementOption, v int64) { c.Add(ctx, v, a) }
@@ -736,6 +782,9 @@ func TestVerifC12Views(t *testing.T) {
 		case 1:
 			tps += "*"
 		}
+		if r.Intn(3) == 0 {
+			tps += "R"
+		}
 		ni := 1 + r.Intn(4)
 		var is []string
 		for j := 0; j < ni; j++ {
@@ -833,14 +882,11 @@ func TestVerifC12Views(t *testing.T) {
 			vs = append(vs, "n0/-/r0/"+f+"/-", "n1/-/"+[]string{"r0", "R0"}[r.Intn(2)]+"/-/-")
 		}
 		if gen == "mixed" {
-			// one synchronous instrument matched by a view that cannot be honoured for its kind AND by valid views
-			// (renaming / filtering / re-aggregating), in either order, exact and wildcard criteria
-			is[0] = string([]byte{"if"[r.Intn(2)], "cuhg"[r.Intn(4)]})
-			for j := 1; j < ni; j++ { // synchronous instruments only: see the note on observables in mutants/C12/RESULTS.md
-				is[j] = is[j][:1] + strings.ToLower(is[j][1:2])
-			}
+			// one instrument (synchronous or observable) matched by a view that cannot be honoured for its kind AND by valid
+			// views (renaming / filtering / re-aggregating), in either order, exact and wildcard criteria
+			is[0] = string([]byte{"if"[r.Intn(2)], "cuhgCUGCUG"[r.Intn(10)]})
 			bad := "l"
-			if is[0][1] == 'g' {
+			if is[0][1] == 'g' || is[0][1] == 'G' {
 				bad = "s"
 			}
 			pat := func() string { return []string{"n0", "s", "q", "g105_42", "-/" + is[0][1:2]}[r.Intn(5)] }
@@ -932,16 +978,15 @@ func TestVerifC12Views(t *testing.T) {
 			}
 			if r.Intn(2) == 0 {
 				v.agg = string("DxxslebbeDEBsl"[r.Intn(14)])
-				// an aggregation that is incompatible with a matched instrument's kind is kept (one time in two) when all
-				// such instruments are synchronous: the instrument is created with an error and used anyway
+				// an aggregation that is incompatible with a matched instrument's kind is kept (one time in two): the
+				// instrument (synchronous or observable) is created with an error and used anyway
 				keep := gen == "mixed" || r.Intn(2) == 0
 				for j := 0; j < ni; j++ {
 					if !v.matches(c12ParseInst(is[j], j)) {
 						continue
 					}
 					gauge := is[j][1] == 'g' || is[j][1] == 'G'
-					async := is[j][1] >= 'A' && is[j][1] <= 'Z'
-					if ((v.agg == "s" && gauge) || (v.agg == "l" && !gauge)) && (async || !keep) {
+					if ((v.agg == "s" && gauge) || (v.agg == "l" && !gauge)) && !keep {
 						v.agg = "e"
 					}
 				}
